@@ -100,7 +100,7 @@ mutual
     | dense _ m _ => m | diag n _ => n | constDiag n _ => n | identity n => n | zero _ m => m
     | tri _ t => t.cols | toep n _ => n | opq _ _ m _ => m
     | root r => r.rows | lowRankRoot r => r.rows | chol r => r.rows
-    | kron a b => a.cols * b.cols | kronTri a b => a.cols * b.cols | kronDiag a b => a.cols * b.cols
+    | kron a b => a.cols * b.cols | kronTri a b => a.cols * b.cols | kronDiag a b => a.rows * b.rows
     | addedDiag a _ => a.cols | kronAddedDiag a _ => a.cols | lrrAddedDiag a _ => a.cols
     | sum l => colsL l | psdSum l => colsL l | sumKron a _ => a.cols
     | matmul _ b => b.cols | mul a _ => a.cols | constMul a _ => a.cols
@@ -116,6 +116,17 @@ def rootCols : Op α → Nat
   | kron a b => a.cols * b.cols | kronTri a b => a.cols * b.cols | kronDiag a b => a.cols * b.cols
   | matmul _ b => b.cols | constMul a _ => a.cols
   | o => o.cols
+
+section diagOf
+variable [One α] [Mul α]
+/-- `o._diag` of a diagonal operator (ConstantDiag/Identity expand, KroneckerProductDiag uses `_kron_diag`). -/
+def diagOf : Op α → Nat → α
+  | diag _ d => d
+  | constDiag _ c => fun _ => c
+  | identity _ => fun _ => 1
+  | kronDiag a b => fun i => diagOf a (i / b.rows) * diagOf b (i % b.rows)
+  | _ => fun _ => 1
+end diagOf
 
 section denote
 variable [Zero α] [One α] [Add α] [Mul α]
@@ -136,7 +147,7 @@ mutual
     | chol r => fun i j => sumN r.cols fun k => r.denote i k * r.denote j k
     | kron a b => fun i j => a.denote (i / b.rows) (j / b.cols) * b.denote (i % b.rows) (j % b.cols)
     | kronTri a b => fun i j => a.denote (i / b.rows) (j / b.cols) * b.denote (i % b.rows) (j % b.cols)
-    | kronDiag a b => fun i j => a.denote (i / b.rows) (j / b.cols) * b.denote (i % b.rows) (j % b.cols)
+    | kronDiag a b => fun i j => if i = j then diagOf a (i / b.rows) * diagOf b (i % b.rows) else 0
     | addedDiag a d => fun i j => a.denote i j + d.denote i j
     | kronAddedDiag a d => fun i j => a.denote i j + d.denote i j
     | lrrAddedDiag a d => fun i j => a.denote i j + d.denote i j
@@ -201,16 +212,6 @@ def sumOps : Op α → List (Op α)
   | addedDiag a d => [a, d] | kronAddedDiag a d => [a, d] | lrrAddedDiag a d => [a, d]
   | o => [o]
 
-section diagOf
-variable [One α] [Mul α]
-/-- `o._diag` of a diagonal operator (ConstantDiag/Identity expand, KroneckerProductDiag uses `_kron_diag`). -/
-def diagOf : Op α → Nat → α
-  | diag _ d => d
-  | constDiag _ c => fun _ => c
-  | identity _ => fun _ => 1
-  | kronDiag a b => fun i => diagOf a (i / b.rows) * diagOf b (i % b.rows)
-  | _ => fun _ => 1
-end diagOf
 
 /-- the root factor of a RootLinearOperator instance. -/
 def rootOf : Op α → Op α
@@ -284,6 +285,13 @@ mutual
     | a :: l => transposeOp a :: transposeL l
 end
 
+/-- `root.mT` inside `add_low_rank` for the root factors the harness builds (Dense, Triangular(Dense));
+any other factor is outside the mirrored region and becomes an opaque transposed operand. -/
+def rootT : Op α → Op α
+  | .dense n m t => .dense m n fun i j => t j i
+  | .tri up (.dense n m t) => .tri (!up) (.dense m n fun i j => t j i)
+  | r => .opq 96 r.cols r.rows fun i j => r.denote j i
+
 /-! ### `add_diagonal` -/
 
 /-- the three accepted shapes of the `diag` argument. -/
@@ -300,17 +308,18 @@ def DiagArg.toOp (n : Nat) : DiagArg α → Op α
   | .full d => .diag n d | .const c => .constDiag n c | .scalar c => .constDiag n c
 
 /-- `DiagLinearOperator.add_diagonal` (always a plain DiagLinearOperator). -/
-def diagAddDiagonal (a : Op α) (g : DiagArg α) : Op α :=
-  .diag a.rows fun i => a.diagOf i + g.fn i
+def diagAddDiagonal (a : Op α) (g : DiagArg α) : Except Err (Op α) :=
+  if a.isDiag then .ok (.diag a.rows fun i => a.diagOf i + g.fn i)
+  else .error .notSupported   -- constructor invariant: `_diag_tensor` is always a DiagLinearOperator
 
 def addDiagonal : Op α → DiagArg α → Except Err (Op α)
   | .zero n m, g => if n = m then .ok (.diag n g.fn) else .error .notSupported
   | .tri up t, g => do let r ← addDiagonal t g; mkTri up r
-  | .addedDiag a d, g => mkAddedDiag .plain a (diagAddDiagonal d g)
-  | .kronAddedDiag a d, g => mkAddedDiag .kron a (diagAddDiagonal d g)
-  | .lrrAddedDiag a d, g => mkAddedDiag .lrr a (diagAddDiagonal d g)
+  | .addedDiag a d, g => do let d' ← diagAddDiagonal d g; mkAddedDiag .plain a d'
+  | .kronAddedDiag a d, g => do let d' ← diagAddDiagonal d g; mkAddedDiag .kron a d'
+  | .lrrAddedDiag a d, g => do let d' ← diagAddDiagonal d g; mkAddedDiag .lrr a d'
   | o, g =>
-    if o.isDiag then .ok (diagAddDiagonal o g)
+    if o.isDiag then diagAddDiagonal o g
     else if o.rows ≠ o.cols then .error .notSupported
     else if o.isKron then mkAddedDiag .kron o (g.toOp o.rows)
     else if o.isLowRankRoot then mkAddedDiag .lrr o (g.toOp o.rows)
@@ -331,12 +340,13 @@ def baseAdd (a b : Op α) : Except Err (Op α) :=
   else if b.isRoot then
     -- add_low_rank(other.root): self + (root @ root.mT), re-dispatched; every class whose ladder ends
     -- here answers a MatmulLinearOperator operand with SumLinearOperator(self, other)
-    .ok (.sum [a, .matmul b.rootOf (transposeOp b.rootOf)])
+    .ok (.sum [a, .matmul b.rootOf (rootT b.rootOf)])
   else .ok (.sum [a, b])
 
 /-- `Diag.__add__` / `ConstantDiag.__add__` for a diagonal left operand `a`. -/
 def diagAdd (a b : Op α) : Except Err (Op α) :=
-  if a.isConstDiag && b.isConstDiag then
+  if !a.isDiag then .error .notSupported   -- constructor invariant: `_diag_tensor` is always a DiagLinearOperator
+  else if a.isConstDiag && b.isConstDiag then
     if a.rows = b.rows then
       .ok (.constDiag a.rows (a.diagOf 0 + b.diagOf 0))
     else .error .shape
